@@ -548,7 +548,7 @@ func callSSA(i *interpreter, caller *frame, callpos token.Pos, fn *ssa.Function,
 			panic(unsupported{"no code for function: " + fn.String()})
 		}
 	}
-	if fn.Pkg != nil && i.cfg.isTarget(fn.Pkg.Pkg.Path()) {
+	if i.isCodeUnderTest(fn) {
 		i.cov[fn]++
 	}
 
